@@ -454,5 +454,8 @@ func (b *V2) Fail(c, mode string) *Resp {
 // Native returns the client's native interpreter (registrations go through it, as in the library's own tests).
 func (b *V2) Native(c string) *interpreter.Native { return b.cs[c].GetNativeInterpreter() }
 
+// SetNative installs another native interpreter instance.
+func (b *V2) SetNative(c string, n *interpreter.Native) { b.cs[c].SetInterpreter(n) }
+
 // ActivateNative switches the client to the native interpreter.
 func (b *V2) ActivateNative(c string) { b.cs[c].ActivateNativeInterpreter() }
